@@ -109,6 +109,16 @@ def build_events():
         return nb
     merges.append(('m7:S45 same-line patches, strategy fail (raises by design)', S['S45'], tweak(S['S45'], 'compute(3)'), tweak(S['S45'], 'compute(5)'), ['fail', None, None, True]))
     merges.append(('m8:S45 same-line patches, use-remote', S['S45'], tweak(S['S45'], 'compute(3)'), tweak(S['S45'], 'compute(5)'), ['use-remote', None, None, True]))
+    # the same local and remote texts merged from two different bases (clean from the first, a same-line conflict from the second): nothing remembered
+    # about a pair of side texts may answer for another base
+    def with_src(nb, text):
+        nb = copy.deepcopy(nb)
+        nb['cells'][0]['source'] = text
+        return nb
+    same_l = with_src(S['S45'], 'alpha = 1\nbeta = 2\ngamma = 3')
+    same_r = with_src(S['S45'], 'alpha = 100\nbeta = 2\ngamma = 3')
+    merges.append(('m9:same side texts, base differs in the last line', with_src(S['S45'], 'alpha = 1\nbeta = 2\ngamma = 0'), same_l, same_r, ['inline', None, None, True]))
+    merges.append(('m10:same side texts, base differs in the first line', with_src(S['S45'], 'alpha = 0\nbeta = 2\ngamma = 3'), same_l, same_r, ['inline', None, None, True]))
     targets = [
         ('t0:all on', dict(sources=True, outputs=True, attachments=True, metadata=True, identifier=True, details=True)),
         ('t1:no sources', dict(sources=False, outputs=True, attachments=True, metadata=True, identifier=True, details=True)),
